@@ -33,7 +33,7 @@ import genjs
 import shrink
 from parts import unparse_tie as ut
 
-SPEC = dict(gen=['defs', 'rules', 'tables', 'actions', 'lexdata'], props=['CalmVerif.Props.C20', 'CalmVerif.Props.C20typed', 'CalmVerif.Props.C01tok'], drivers=['drv_unparse'], audit='Audit/C20.lean')
+SPEC = dict(gen=['defs', 'rules', 'tables', 'actions', 'lexdata'], props=['CalmVerif.Props.C20', 'CalmVerif.Props.C20typed', 'CalmVerif.Props.C01tok', 'CalmVerif.Props.C01typed2'], drivers=['drv_unparse'], audit='Audit/C20.lean')
 
 LT = '\n\r  '
 WS = ' \t\x0b\x0c\xa0﻿'
